@@ -71,10 +71,16 @@ def famFilter : Fam → List String
 def conTypeKw (st : Style) (fam : Fam) (kw : String) : Option String :=
   transformKw st (famFilter fam) kw
 
+/-- arguments `DataModelField._process_data_in_str` removes again (v2: "unique_items is not supported
+in pydantic 2.0"); AUTHORED from model/pydantic_v2/base_model.py -/
+def fieldDropped : Style → List String
+  | .v1 => []
+  | .v2 => ["unique_items"]
+
 /-- `Field()` routing: `JsonSchemaObject.dict()` → `Constraints.parse_obj` (alias map, v2 rename of
 item counts) → `DataModelField.__str__` writes the attribute name as keyword, unchanged. -/
 def fieldKw (st : Style) (kw : String) : Option String :=
-  (aliasMap st).lookup kw
+  ((aliasMap st).lookup kw).filter (fun a => !(fieldDropped st).contains a)
 
 /-- Steps (1)+(2). `is_constraints_field` is true for every array whatever the options, so array
 constraints always go through `Field()`. -/
